@@ -3,6 +3,7 @@
  */
 
 #pragma once
+#include "verif_hooks.h"
 
 #include <utility>
 
@@ -60,6 +61,7 @@ retry_find_border:
          * @a root is the root node of the some layer, but it was deleted.
          * So it must retry from root of the all tree.
          */
+        YK_WAIT(YK_W_RETRY, nullptr);
         goto retry_from_root; // NOLINT
     }
     constexpr std::size_t tuple_node_index = 0;
@@ -75,6 +77,7 @@ retry_find_border:
          * this code path is reached. You may need to make appropriate use of
          * compiler fences.
          */
+        YK_WAIT(YK_W_RETRY, nullptr);
         goto retry_from_root; // NOLINT
     }
     // check target_border is border node.
@@ -98,6 +101,7 @@ retry_fetch_lv:
          * It may be change the correct border between atomically fetching border node
          * and atomically fetching lv.
          */
+        YK_WAIT(YK_W_RETRY, nullptr);
         goto retry_from_root; // NOLINT
     }
     // the target node is correct
@@ -126,6 +130,7 @@ retry_fetch_lv:
             final_check.get_vsplit() !=
                     v_at_fb.get_vsplit()) { // the border may be incorrect.
             target_border->version_unlock();
+            YK_WAIT(YK_W_RETRY, nullptr);
             goto retry_from_root; // NOLINT
         }                         // here border is correct.
         if (final_check.get_vinsert_delete() !=
@@ -153,6 +158,7 @@ retry_fetch_lv:
          !final_check.get_root()) || // this border was deleted.
         final_check.get_vsplit() !=
                 v_at_fb.get_vsplit()) { // this border is incorrect.
+        YK_WAIT(YK_W_RETRY, nullptr);
         goto retry_from_root;           // NOLINT
     }
     if (final_check.get_vinsert_delete() !=
